@@ -721,6 +721,8 @@ func c08Run(c *vk.Ctx, rr *c08Renderers, cs c08Case, prep *c08Prepared, st *c08S
 			key = "C08:nft-icmp-type-code-unloadable"
 		case "icmp-match-needs-icmp-proto":
 			key = "C08:ipt-icmp-match-without-icmp-protocol-unloadable"
+		case "nft-conflicting-protocols":
+			key = "C08:nft-icmp-match-conflicting-protocol-unloadable"
 		}
 		c.Violation(key, c08Detail{Case: cs, Rule: vk.JSON(rule), Rendered: b.Lines(), Why: le.Error()})
 		c08Out.add(c, "unloadable/"+cs.Kind+"/"+le.Class)
@@ -730,9 +732,15 @@ func c08Run(c *vk.Ctx, rr *c08Renderers, cs c08Case, prep *c08Prepared, st *c08S
 		// keep exploring the semantics of the text as its author meant it
 		b.Lenient = true
 		if ruleset, err = b.Ruleset(); err != nil {
-			if _, tool := vClassify(err); tool != nil {
+			le2, tool := vClassify(err)
+			if tool != nil {
 				c.ToolError(fmt.Sprintf("case %s (lenient): %v", vk.JSON(cs), tool))
 				return false
+			}
+			// a second, independent reason the same text would not load
+			if le2.Class == "nft-conflicting-protocols" {
+				c.Violation("C08:nft-icmp-match-conflicting-protocol-unloadable", c08Detail{Case: cs, Rule: vk.JSON(rule), Rendered: b.Lines(), Why: le2.Error()})
+				c08Out.add(c, "unloadable/"+cs.Kind+"/"+le2.Class)
 			}
 			return true
 		}
